@@ -400,3 +400,102 @@ pub fn c15_stream_error_plumbing() {
     kani::cover!(side, "sink side");
     kani::cover!(!side, "source side");
 }
+
+// ---------------------------------------------------------------------------
+// A source that delivers SEVERAL items per step (like a parser that yields all triples of one statement per
+// call), with the fault possibly in the middle of a step.
+pub struct Chunky {
+    pub items: [u8; N],
+    pub n: usize,
+    pub pos: usize,
+    pub fault: usize,
+    pub code: u8,
+    pub chunk: usize,
+}
+impl Source for Chunky {
+    type Item<'x> = u8;
+    type Error = SrcErr;
+    fn try_for_some_item<E, F>(&mut self, mut f: F) -> StreamResult<bool, SrcErr, E>
+    where
+        E: Error + Send + Sync + 'static,
+        F: FnMut(u8) -> Result<(), E>,
+    {
+        if self.pos >= self.n {
+            return Ok(false);
+        }
+        let mut c = 0;
+        while c < self.chunk && self.pos < self.n {
+            let i = self.pos;
+            self.pos += 1;
+            if i == self.fault {
+                return Err(SourceError(SrcErr(self.code)));
+            }
+            f(self.items[i]).map_err(SinkError)?;
+            c += 1;
+        }
+        Ok(true)
+    }
+}
+impl Setup {
+    #[cfg(kani)]
+    pub fn chunky(&self) -> Chunky {
+        let chunk: usize = kani::any();
+        kani::assume(chunk >= 1 && chunk <= N);
+        Chunky { items: self.items, n: self.n, pos: 0, fault: self.sfault, code: self.scode, chunk }
+    }
+}
+
+macro_rules! chunky_harness {
+    ($name:ident; $a:ident) => {
+        #[cfg(kani)]
+        #[kani::proof]
+        #[kani::unwind(8)]
+        pub fn $name() {
+            let s = setup();
+            let p1: u8 = kani::any();
+            let mut rec = Rec::new(s.kfault, s.kcode);
+            let mut src = stage_apply!(s.chunky(), $a, p1);
+            let got = drive(&mut src, &mut rec, s.stepwise);
+            check(&s, &[stage_data!($a, p1)], &rec, got);
+        }
+    };
+}
+chunky_harness!(c15_chunky_f; F);
+chunky_harness!(c15_chunky_m; M);
+chunky_harness!(c15_chunky_fm; FM);
+
+// IntoIterator of map_items / filter_map_items over a multi-item-per-step source: the iterator must yield the
+// items before the fault, in order, and only then the error.
+macro_rules! into_iter_harness {
+    ($name:ident; $a:ident) => {
+        #[cfg(kani)]
+        #[kani::proof]
+        #[kani::unwind(8)]
+        pub fn $name() {
+            let mut s = setup();
+            s.kfault = N + 1; // no sink in this scenario
+            let p1: u8 = kani::any();
+            let mut rec = Rec::new(N + 1, 0);
+            let mut it = stage_apply!(s.chunky(), $a, p1).into_iter();
+            let mut got = Outcome::Done;
+            let mut k = 0;
+            while k < N + 2 {
+                match it.next() {
+                    None => break,
+                    Some(Ok(v)) => {
+                        let _ = rec.push(v);
+                    }
+                    Some(Err(SrcErr(c))) => {
+                        got = Outcome::Src(c);
+                        break;
+                    }
+                }
+                k += 1;
+            }
+            check(&s, &[stage_data!($a, p1)], &rec, got);
+            std::mem::forget(it);
+        }
+    };
+}
+into_iter_harness!(c15_into_iter_m; M);
+into_iter_harness!(c15_into_iter_fm; FM);
